@@ -462,13 +462,18 @@ class Queue(Greenlet):
         for i, entry in enumerate(self.queued):
             timestamp, entry_id = entry
             if now >= timestamp:
-                self._pool_spawn('store', self._dequeue, entry_id)
                 last_i = i+1
             else:
                 break
         if last_i > 0:
+            # Take the ready entries off the queue before spawning: spawning
+            # into a full store pool blocks, and entries added meanwhile
+            # must not shift the ones being iterated over.
+            ready = self.queued[:last_i]
             self.queued = self.queued[last_i:]
             self.queued_ids = set([id for _, id in self.queued])
+            for timestamp, entry_id in ready:
+                self._pool_spawn('store', self._dequeue, entry_id)
 
     def _wait_store(self):
         while True:
